@@ -943,6 +943,7 @@ class Builder:
             new is not None
             and nd["op"] == "order_rows"
             and nd.get("limit") is not None
+            and nd.get("cols")
             and cfg.get("drop_order_col_prob")
             and len(schemas[new].names()) > 1
             and g.boolean(cfg["drop_order_col_prob"])
